@@ -115,6 +115,38 @@ func c05Inputs(seed uint64, tier string) []cInput {
 		}
 		out = append(out, cInput{b, "dims"})
 	}
+	// threshold-crossing valid files (WideSeeds: widths around 1024 / 2048 / 4096 x heights 1..4 as lossy,
+	// lossy+alpha, lossless and as ANMF frames, small payloads), whole and with payload-only mutations: the
+	// per-row buffers of the decode paths (stack scratch of the upsampler, zero pages, row caches) see
+	// rows longer than they are on every other input of this suite
+	{
+		every := 2
+		nWideMut := 250
+		if tier == "thorough" {
+			every, nWideMut = 1, 6000
+		}
+		wide := WideSeeds(seed, every)
+		var extra []cInput
+		for _, s := range wide {
+			extra = append(extra, cInput{s.Data, "wide"})
+		}
+		for i := 0; i < nWideMut && len(wide) > 0; i++ {
+			r := NewRNG(seed, uint64(9970000+i))
+			extra = append(extra, cInput{payloadMutate(r, wide[r.Intn(len(wide))].Data), "wide-payload"})
+		}
+		// spread over the list (contiguous per-worker ranges)
+		merged := make([]cInput, 0, len(out)+len(extra))
+		every2 := len(out)/len(extra) + 1
+		k := 0
+		for i, x := range out {
+			merged = append(merged, x)
+			if (i+1)%every2 == 0 && k < len(extra) {
+				merged = append(merged, extra[k])
+				k++
+			}
+		}
+		out = append(merged, extra[k:]...)
+	}
 	// streams of the random VP8L writer (gen_vp8l.go) as simple lossless files: codec interiors the
 	// encoder never produces - any transform chain, code shapes, cache sizes, and (narrow variant)
 	// pictures of width 1..8 full of short 2-D distance codes, among them those that map to a
@@ -166,7 +198,7 @@ func c05Inputs(seed uint64, tier string) []cInput {
 // suiteC05 (parent): every input goes through all decoding entry points in child processes; a crash
 // or hang of a child is attributed to the input it was working on.
 func suiteC05(rep *Report) error {
-	rep.Rule = "inputs: seed corpus, structure-aware container mutations, hand-assembled layouts, random bytes, RIFF-size sweeps, payload-only mutations (codecs see the damage), declared-dimension extremes, streams of the random VP8L writer as simple lossless files (any transform chain / code shapes / cache sizes; 3 of 5 are pictures of width 1..8 dense in short 2-D distance codes, incl. those mapping to a distance below 1); each input runs through Decode, DecodeConfig, GetFeatures, image.Decode, animation.DecodeBytes->DecodeFrames->DecodeFramesParallel->NewAnimDecoder->NextFrame*, mux.NewDemuxer+Frame+GetChunk in child processes (panic in any goroutine, hang > 40 s (thorough: 90 s), allocation beyond 64*len + 40*declared_area*(1+frames) + 16 MiB, or a malformed returned image = violation); non-trivial = some entry point accepted the input"
+	rep.Rule = "inputs: seed corpus, structure-aware container mutations, hand-assembled layouts, random bytes, RIFF-size sweeps, payload-only mutations (codecs see the damage), declared-dimension extremes, threshold-crossing valid files (widths 1023,1024,1025,1100,2047,2048,2049,4097 x heights 1..4 as lossy, lossy+alpha, lossless and ANMF frames with small payloads - thresholds.go / WideSeeds - whole and payload-mutated), streams of the random VP8L writer as simple lossless files (any transform chain / code shapes / cache sizes; 3 of 5 are pictures of width 1..8 dense in short 2-D distance codes, incl. those mapping to a distance below 1); each input runs through Decode, DecodeConfig, GetFeatures, image.Decode, animation.DecodeBytes->DecodeFrames->DecodeFramesParallel->NewAnimDecoder->NextFrame*, mux.NewDemuxer+Frame+GetChunk in child processes (panic in any goroutine, hang > 40 s (thorough: 90 s), allocation beyond 64*len + 40*declared_area*(1+frames) + 16 MiB, or a malformed returned image = violation); non-trivial = some entry point accepted the input"
 	inputs := c05Inputs(rep.Seed, rep.Tier)
 	dir, err := os.MkdirTemp("", "c05")
 	if err != nil {
@@ -269,6 +301,21 @@ func suiteC05(rep *Report) error {
 		r := results[i]
 		kind := strings.SplitN(in.kind, ":", 2)[0]
 		rep.Count("kind:" + kind)
+		if kind == "wide" {
+			if a, _ := declaredArea(in.data); a > 0 {
+				for _, t := range Thresholds {
+					if t.Unit == "width" && t.Value >= 1024 && t.Value <= 4096 {
+						for _, h := range WideHeights {
+							for _, w := range SizesAround(t) {
+								if uint64(w*h) == a {
+									rep.Count(t.Tag())
+								}
+							}
+						}
+					}
+				}
+			}
+		}
 		switch r.status {
 		case "ok":
 			acc := strings.Contains(r.detail, "acc=1")
